@@ -29,7 +29,9 @@ Inductive ferr := FBusy | FTimeout | FExpired | FOther.
 (* state of a returned context: CtxSessionDone = Done() is closed and Err() is
    ErrLockSessionDone; CtxErrOpen = Err() already reports ErrLockSessionDone but
    Done() is not closed (the holder is not woken up) *)
-Inductive cerr := CtxLive | CtxSessionDone | CtxErrOpen | CtxOther.
+Inductive cerr := CtxLive | CtxSessionDone | CtxErrOpen | CtxOther | CtxCanceled.
+(* CtxCanceled: Done() is closed and Err() is context.Canceled — the state of a context
+   derived from a lock context that was cancelled (chained locks of the cluster helpers) *)
 
 Inductive cev :=
 | ECall (i : nat) (o : lop)
@@ -48,7 +50,8 @@ Definition ferr_eqb (a b : ferr) :=
   match a, b with FBusy, FBusy | FTimeout, FTimeout | FExpired, FExpired | FOther, FOther => true | _, _ => false end.
 Definition cerr_eqb (a b : cerr) :=
   match a, b with
-  | CtxLive, CtxLive | CtxSessionDone, CtxSessionDone | CtxErrOpen, CtxErrOpen | CtxOther, CtxOther => true
+  | CtxLive, CtxLive | CtxSessionDone, CtxSessionDone | CtxErrOpen, CtxErrOpen | CtxOther, CtxOther
+  | CtxCanceled, CtxCanceled => true
   | _, _ => false
   end.
 
